@@ -101,7 +101,7 @@ PROP = dict(
          "from the non-pair operators so that each is exercised. After every step: bookkeeping by job index, every tour's activities and "
          "job set, stale flags, the pragmatic rendering, fingerprints of the parent before/after, cached state vs strip-and-recompute. "
          "One history in three runs under explicit objectives that keep per-solution aggregates (work balance, compact tours, soft tour "
-         "order), one in eight on long tours (30-44 jobs on 1-2 vehicles: the stochastic leg selection samples only from 16-32 legs on). "
+         "order), one in four on long tours (30-44 jobs on 1-2 vehicles: the stochastic leg selection samples only from 16-32 legs on). "
          "Elementary-step traces (300 quick / 3000 thorough): the real JobRemovalTracker (hook H3: try_remove_job, try_remove_route with "
          "exact budgets, locked jobs from derived relations, absent jobs), InsertionContext::restore and InsertionHeuristic::process "
          "(observing evaluator recording every evaluation result and the state it saw) are driven by a random script; after EVERY call "
